@@ -739,16 +739,19 @@ class BackWorld(World):
         targets = self.entry_targets(sub, ev, how)
         sub.active = list(self.entry_targets(sub, ev, None))
         sub.processing = True
-        self.callback('N', parent, m.own_sid, own_ev)
-        sub.inside = True
-        sub.active = list(targets)
-        for r in range(len(m.initial)):
-            self.enter_state(sub, sub.active[r], ev)
-        if how is not None and how[0] == 'entry':
-            # entry point: the inner transition triggered by the same event; issued while the machine
-            # still blocks, so it waits in the message queue
-            self.pei(sub, ev.plain(), DIRECT)
-        sub.processing = False
+        try:
+            self.callback('N', parent, m.own_sid, own_ev)
+            sub.inside = True
+            sub.active = list(targets)
+            for r in range(len(m.initial)):
+                self.enter_state(sub, sub.active[r], ev)
+            if how is not None and how[0] == 'entry':
+                # entry point: the inner transition triggered by the same event; issued while the machine
+                # still blocks, so it waits in the message queue
+                self.pei(sub, ev.plain(), DIRECT)
+        finally:
+            # PROPERTY (C12): an entry behaviour that throws does not leave the submachine blocked ("not wedged")
+            sub.processing = False
         # PROPERTY (C10): completion transitions of the entered states fire before any queued or
         # deferred event is dispatched
         if self.has_completion(m):
@@ -925,13 +928,16 @@ class Mp11World(World):
                 if e.kind == 'e' and not e.marked:
                     self.lost.append(e.serial)
             sub.queue = []
-        self.callback('N', parent if parent is not None else sub, m.own_sid, ev)
-        sub.inside = True
-        sub.active = list(targets)
-        for r in range(len(m.initial)):
-            self.enter_state(sub, sub.active[r], ev)
-            self.entered(sub, r, sub.active[r])
-        sub.processing = False
+        try:
+            self.callback('N', parent if parent is not None else sub, m.own_sid, ev)
+            sub.inside = True
+            sub.active = list(targets)
+            for r in range(len(m.initial)):
+                self.enter_state(sub, sub.active[r], ev)
+                self.entered(sub, r, sub.active[r])
+        finally:
+            # PROPERTY (C12): an entry behaviour that throws does not leave the machine blocked ("not wedged")
+            sub.processing = False
         self.process_pool(sub)
         if how is not None and how[0] == 'entry':
             self.pei(sub, ev.plain(), 'direct')
